@@ -15,6 +15,7 @@ import (
 	"sort"
 	"strconv"
 	"strings"
+	"sync"
 
 	"storj.io/drpc"
 	"storj.io/drpc/drpcerr"
@@ -33,8 +34,8 @@ func (e TagErr) Error() string { return fmt.Sprintf("%s error %d", e.Kind, e.Tag
 
 // Enc is a pass-through encoding over *[]byte / []byte whose Unmarshal can park.
 type Enc struct {
-	Park chan chan struct{} // when non-nil, Unmarshal announces itself here and waits
-	Fail bool               // Unmarshal returns an error
+	Park  chan chan struct{} // when non-nil, Unmarshal announces itself here and waits
+	Fail  bool               // Unmarshal returns an error
 	MPark chan chan struct{} // when non-nil, Marshal announces itself here and waits
 }
 
@@ -152,6 +153,8 @@ type World struct {
 	wireN   int
 	log     []string
 	Failed  string
+	lateMu  sync.Mutex
+	Late    []string // transport writes that started when the stream had already reported Finished
 }
 
 func NewWorld(split int, manual bool, wsize int) *World {
@@ -159,6 +162,13 @@ func NewWorld(split int, manual bool, wsize int) *World {
 	w.Enc = &Enc{}
 	wr := drpcwire.NewWriter(w.W, wsize)
 	w.S = drpcstream.NewWithOptions(context.Background(), 1, wr, drpcstream.Options{SplitSize: split, ManualFlush: manual})
+	w.W.OnWrite = func(p []byte) {
+		if w.S.IsFinished() {
+			w.lateMu.Lock()
+			w.Late = append(w.Late, corr.Hex(p))
+			w.lateMu.Unlock()
+		}
+	}
 	return w
 }
 
